@@ -92,12 +92,32 @@ def c02a(prog, R, rid="C02.a"):
         r.check(ok, "%s|replacement keeps the replaced entry's seqno" % g.path,
                 "the replaced history entry gets a different seqno: snapshots between the old and new seqno resolve differently",
                 g.where(c.bb))
+    # a version is always stamped with a freshly allocated write seqno (never a read of a counter, never the visible one):
+    # otherwise a snapshot taken right after can be ahead of the write counter and later writes land below it
+    NEXT = "seqno::SequenceNumberCounter::next"
+    stamped = [c for c in prog.all_calls(A.UPGRADE_SEQNO)]
+    for c in stamped:
+        g = c.fn
+        idx = [i for i, t in enumerate(c.arg_tys) if t == "u64"]
+        src = origins(g, c.args[idx[0]]) if idx else []
+        fresh = bool(src) and all(o.kind == "call" and o.extra.sres == NEXT for o in src)
+        recv_ok = True
+        for o in src:
+            if o.kind == "call" and o.extra.sres == NEXT:
+                for ro in origins(g, o.extra.args[0]):
+                    if any("visible" in p_ for p_ in ro.path) or (ro.kind == "param" and "visible" in g.local_name(ro.what)):
+                        recv_ok = False
+        r.check(fresh and recv_ok, "%s|version stamped with <write counter>.next()" % g.path,
+                "a version is installed with a seqno that was not freshly allocated from the write counter (%s): snapshots taken "
+                "afterwards can see later writes" % [str(o) for o in src], g.where(c.bb), str(src))
+    if len(stamped) < 3:
+        r.anchor_missing("upgrade_version_with_seqno call sites (found %d)" % len(stamped))
     # census of upgrade sites
     ups = [c for c in prog.all_calls(A.UPGRADE, A.UPGRADE_SEQNO) if c.fn.path != A.UPGRADE]
     r.ok("census|%d upgrade_version* call sites" % len(ups), ", ".join(sorted({short(c.fn.path) for c in ups})), nontrivial=False)
     if len(ups) < 9:
         r.anchor_missing("upgrade_version* call sites (found %d, 9 confirmed by reading)" % len(ups))
-    r.floor(9)
+    r.floor(12)
 
 
 CLOSURE_TY = re.compile(r"\{closure@([^:]+):(\d+):(\d+): (\d+):(\d+)\}")
